@@ -424,4 +424,80 @@ theorem loop_pureForeign_left {h : Heap} (is : Nat → Nat → Val → Res) {e w
         · cases x <;> simp_all [pureForeign]
         · simp [depth] at hf; omega
 
+
+/-! ### no panic, for any pair of error values whatsoever -/
+
+theorem gIs_nil {h : Heap} (hwf : WF h) (n e : Nat) : gIs h (n + 1) e .nil = .f := by
+  rw [gIs]
+  have h1 : extractFactoryRef h Val.nil = .nil := rfl
+  have h2 : ifaceEq (Val.base e) Val.nil = .f := rfl
+  have h4 : Res.guard ((obj h e).factoryRef != Val.nil) (ifaceEq (obj h e).factoryRef Val.nil) = .f := by
+    rcases hwf.ref e with hr | ⟨r, hr, _, _, _⟩
+    · simp [hr]
+    · rw [hr]; simp [ifaceEq]
+  simp [h1, h2, h4, embedded]
+
+theorem gIs_ne_panic {h : Heap} (hwf : WF h) : ∀ n e w, gIs h n e w ≠ .panic := by
+  intro n
+  induction n with
+  | zero => intro e w; simp [gIs]
+  | succ n ih =>
+    intro e w
+    cases hw : embedded w with
+    | some b =>
+      rw [gIs_succ_isG hwf _ _ hw]
+      split
+      · simp
+      · split
+        · simp
+        · exact ih _ _
+    | none =>
+      cases w with
+      | nil => rw [gIs_nil hwf]; simp
+      | base => simp [embedded] at hw
+      | ext => simp [embedded] at hw
+      | foreign ty i x =>
+        rw [gIs_foreign hwf _ _ (w := Val.foreign ty i x) rfl]
+        cases hc : isComparable (Val.foreign ty i x) with
+        | false => simp
+        | true =>
+          rcases containsErr_isBool_of_comparable (obj h e).srcErrors _ hc with h1 | h1 <;> simp [h1]
+
+theorem loop_ne_panic {h : Heap} (hwf : WF h) (y : Val) :
+    ∀ fuel x, errorsIsLoop (gIs h) h fuel x y (isComparable y) ≠ .panic := by
+  intro fuel
+  induction fuel with
+  | zero => intro x; simp [errorsIsLoop]
+  | succ n ih =>
+    intro x
+    rw [errorsIsLoop]
+    have hA : (Res.guard (isComparable y) (ifaceEq x y)).isBool := by
+      cases hc : isComparable y with
+      | false => exact Or.inr rfl
+      | true => exact Res.isBool_guard (ifaceEq_isBool_of_comparable x y hc)
+    rcases hA with hA | hA <;> rw [hA] <;> simp only []
+    · simp
+    · have tail : (if unwrap h x = Val.nil then Res.f
+          else errorsIsLoop (gIs h) h n (unwrap h x) y (isComparable y)) ≠ .panic := by
+        split
+        · simp
+        · exact ih _
+      cases hx : embedded x with
+      | none => simpa using tail
+      | some a =>
+        simp only []
+        have hB := gIs_ne_panic hwf (n + 1) a y
+        cases hg : gIs h (n + 1) a y with
+        | t => simp
+        | f => simpa using tail
+        | panic => exact absurd hg hB
+        | fuel => simp
+
+/-- on a well-formed heap `errors.Is` never panics: any source, any target, any fuel -/
+theorem errorsIs_ne_panic {h : Heap} (hwf : WF h) (fuel : Nat) (x y : Val) : errorsIs h fuel x y ≠ .panic := by
+  rw [errorsIs]
+  split
+  · simp
+  · exact loop_ne_panic hwf y fuel x
+
 end GErrorIs
